@@ -355,13 +355,13 @@ def build_inputs(rng, tier, configs_info):
     for cfg_i, (env, eps, digits) in enumerate(configs_info):
         # the complete table of special values x special values x operators under the first four settings (thorough)
         ps, st = gen_pairs(rng, eps, tier, full_specials=cfg_i < 4)
-        cap = 220 if tier == "quick" else 2500
+        cap = 220 if tier == "quick" else 1800
         if len(ps) > cap:
             # a random part of the tolerance pairs per configuration (every magnitude / distance / side stays represented)
             keep = set(rng.sample(range(len(ps)), cap))
             ps = [c for j, c in enumerate(ps) if j in keep or c["kind"] != "tolerance-pair"]
-        pr = gen_print(rng, digits, 10 if tier == "quick" else 150)
-        asg = gen_assign(rng, 40 if tier == "quick" else 300)
+        pr = gen_print(rng, digits, 10 if tier == "quick" else 100)
+        asg = gen_assign(rng, 40 if tier == "quick" else 200)
         # arity and the other malformed forms do not depend on the settings: quick runs them under the default setting and
         # one other (by seed), thorough under every setting
         cfg_pos = [e for e, _, _ in configs_info].index(env)
@@ -371,7 +371,7 @@ def build_inputs(rng, tier, configs_info):
         inputs += ps + pr + asg + mal
         meta["pairs"][json.dumps(env, sort_keys=True)] = st["pairs"]
     # one tree evaluated on several states in a row: fluents present, then missing (read 0), then present again
-    nseq = 40 if tier == "quick" else 400
+    nseq = 40 if tier == "quick" else 200
     meta["sequences"] = nseq
     for k in range(nseq):
         a, b, c3 = (rng.choice([0.5, 1.0, 2.0, 3.0, 5.0, -4.0, 7.25]) for _ in range(3))
